@@ -59,19 +59,27 @@ def run_extra(ctx):
                     lines[i], lines[j] = lines[j], lines[i]
                 f = os.path.join(work, "e2e.txt")
                 open(f, "w").write("\n".join(lines) + "\n")
-                sub = rnd.pick(["histo", "table"])
+                sub = rnd.pick(["histo", "table", "table-cols", "bars"])
                 if sub == "histo":
                     cmd = [exe, "histo", "-m", r"(\S+) (\d+)", "-e", "{$ {1} {2}}", "--sort", mode, "-n", "100"]
+                elif sub == "bars":
+                    cmd = [exe, "bars", "-m", r"(\S+) (\d+)", "-e", "{$ {1} k {2}}", "--sort", mode]
+                elif sub == "table-cols":
+                    cmd = [exe, "table", "-m", r"(\S+) (\d+)", "-e", "{$ {1} r {2}}", "--sort-cols", mode, "--cols", "100"]
                 else:
                     cmd = [exe, "table", "-m", r"(\S+) (\d+)", "-e", "{$ c {1} {2}}", "--sort-rows", mode, "--rows", "100"]
                 cmd += ["--workers", str(rnd.pick([1, 2, 4])), "--batch", str(rnd.pick([1, 2, 1000])), f]
                 rc, out, err = run(cmd, timeout=120)
                 runs += 1
                 got = []
-                for l in out.decode("utf8", "replace").split("\n")[(1 if sub == "table" else 0):]:
-                    w = l.split()
-                    if len(w) >= 2 and w[0] in keys:
-                        got.append(w[0])
+                text = out.decode("utf8", "replace").split("\n")
+                if sub == "table-cols":
+                    got = [w for w in (text[0].split() if text else []) if w in keys]
+                else:
+                    for l in text[(1 if sub in ("table", "bars") else 0):]:
+                        w = l.split()
+                        if len(w) >= 2 and w[0] in keys:
+                            got.append(w[0])
                 if rc != 0 or got != want:
                     violations.append({"key": "e2e-order", "cmd": " ".join(cmd[1:]), "data": lines, "sort": mode,
                                        "cli_order": got, "spec_order": want, "rc": rc, "stderr": err.decode("utf8", "replace")[-300:]})
